@@ -207,12 +207,15 @@ CHECKS.update({
                 "arbitrary increments, KeyDir publish and lookup, per-reader mapped lengths, the bounded reader pool, the remap rule "
                 "of LogReader::at): for EVERY schedule no thread panics, the history is linearizable (commit-point simulation into a "
                 "generic linearizability theorem), readers are conserved and no state deadlocks; the pinned remap rule is refuted by an "
-                "explicit schedule. Partial: merge and rollover are not in the interleaving model. The check forces 7 targeted "
+                "explicit schedule. A second interleaving model (gets against a running merge pass: DashMap guard kept across the read, "
+                "copy-and-re-point under the entry lock, unlinks afterwards) proves for every schedule that no get reads an unlinked "
+                "file, every get returns the value at its lookup and the merge never changes the map; the variant without the guard "
+                "is refuted. Partial: the two models are not composed; rollover is not modelled. The check forces 7 targeted "
                 "interleavings on the real threads by parking at verif schedule points (three of them are also run through the model "
                 "and the per-thread results compared), runs free stress with merges and rollovers, and decides every timed history "
                 "with a Wing-Gong-Lowe linearizability search; probes afterwards that reads are still served.",
         "design_ref": "DESIGN.md section 8, C04",
-        "note": "Mutex, DashMap shard atomicity, ArrayQueue and mmap coherence are modelled, not verified. Merge/rollover concurrency "
+        "note": "Mutex, DashMap shard atomicity, ArrayQueue and mmap coherence are modelled, not verified. Rollover concurrency "
                 "is covered by forced schedules and stress only. The window inside one BufWriter::write has no schedule point.",
         "technique": "Coq proof over an interleaving LTS (safety, linearizability by simulation, deadlock freedom) + forced schedules "
                      "and stress on real threads decided by a linearizability checker",
